@@ -8,6 +8,20 @@ import Mathlib.Analysis.SpecialFunctions.Gamma.Basic
 namespace Statrs.Lemmas.Density
 open Real
 
+theorem lit_0 : (0.0 : ℝ) = 0 := by norm_num
+theorem lit_1 : (1.0 : ℝ) = 1 := by norm_num
+theorem lit_2 : (2.0 : ℝ) = 2 := by norm_num
+theorem lit_half : (0.5 : ℝ) = 1 / 2 := by norm_num
+theorem lit_3half : (1.5 : ℝ) = 3 / 2 := by norm_num
+theorem lit_80 : (80.0 : ℝ) = 80 := by norm_num
+theorem lit_160 : (160.0 : ℝ) = 160 := by norm_num
+
+/-- `rfun_norm`, then float literals to numerals and the trivialised IEEE tests (`isInf`, `ulpsEq`)
+    to propositions -/
+macro "model_norm" : tactic => `(tactic| (rfun_norm; (try simp only [lit_0, lit_1, lit_2, lit_half,
+  lit_3half, lit_80, lit_160, Bool.false_eq_true, if_false, if_true, decide_eq_true_eq, false_or, or_false,
+  false_and, and_false, not_false_eq_true] at *)))
+
 /-- `log (x ^ y) = y * log x` for `0 ≤ x` as soon as the power is non-zero (covers `0 ^ 0 = 1`). -/
 theorem log_rpow_of_ne_zero {x y : ℝ} (hx : 0 ≤ x) (h : x ^ y ≠ 0) :
     Real.log (x ^ y) = y * Real.log x := by
